@@ -111,6 +111,22 @@ Example any_stack_nonvacuous :
   [ODone; ODone; OVal 2; OTags [(2, 2)]; OQuery [(1, (2, [(2, 2)]))]; ODone; ONotFound; OBulk [0; 4]; ODone; OQuery [(2, (3, [(1, 0)]))]].
 Proof. vm_compute. repeat split. Qed.
 
+(* the lookup of an entry by its key under random key formatting goes through the internal tag Key:key_tag_value(key);
+   formatted_rand_transparent rests on this function being injective (a non-injective encoding makes two keys alias one
+   entry: seeded change C11-7).  Corr checks on every run that the Key tag values the real code writes for the keys of
+   the alphabet (keys with ':' '&' '|', keys that are base64 / base64url / base58 / hex of other keys, internal names,
+   long keys) are pairwise different, i.e. identify exactly what this function identifies. *)
+Theorem key_tag_value_injective : forall k1 k2, key_tag_value k1 = key_tag_value k2 -> k1 = k2.
+Proof. intros k1 k2 H. apply N.eqb_eq. rewrite <- kenc_eqb. apply N.eqb_eq. exact H. Qed.
+Print Assumptions key_tag_value_injective.
+
+(* agreement with the model's function means: the code's encoding is injective on the observed keys *)
+Theorem keytags_agree_injective : forall tbl, keytags_agree tbl = true -> keytags_injective tbl = true.
+Proof. intros tbl H. unfold keytags_agree, keytags_injective in *. rewrite forallb_forall in *. intros a Ha. specialize (H a Ha).
+  rewrite forallb_forall in *. intros b Hb. specialize (H b Hb). unfold key_tag_value in H. rewrite kenc_eqb in H.
+  apply Bool.eqb_prop in H. exact (eq_trans (f_equal (fun x => implb x (fst a =? fst b)) H) (implb_same _)). Qed.
+Print Assumptions keytags_agree_injective.
+
 (* ---------- provider level ---------- *)
 (* the in-memory provider follows the provider-level contract (several named stores, OpenStore / SetStoreConfig /
    GetStoreConfig / GetOpenStores / Provider.Close / Store.Close, with Close deleting the store) for every scenario
